@@ -59,6 +59,10 @@ Behav(p) == { [n |-> "ok",        s |-> <<Resp("ok", 200, IPOf(p) \o "\n")>>,   
               [n |-> "5xx_valid", s |-> <<Resp("status", 503, IPOf(p))>>,                                   c |-> "win"],
               [n |-> "4xx",       s |-> <<Resp("status", 404, IPOf(p))>>,                                   c |-> "final"],
               [n |-> "429",       s |-> <<Resp("status", 429, IPOf(p))>>,                                   c |-> "final"],
+              \* a throttling answer that names a retry delay is a client error like any other: final for that provider (a second
+              \* request to it - which would be answered - is never made)
+              [n |-> "429_ra0",   s |-> <<Resp("status", 429, "slow down") @@ [retry_after |-> "0"], Resp("ok", 200, IPOf(p) \o "\n")>>,   c |-> "final"],
+              [n |-> "429_ra1",   s |-> <<Resp("status", 429, "slow down") @@ [retry_after |-> "1"], Resp("ok", 200, IPOf(p) \o "\n")>>,   c |-> "final"],
               [n |-> "invalid",   s |-> <<Resp("body", 200, "not-an-address")>>,                            c |-> "final"],
               [n |-> "5xx_invalid", s |-> <<Resp("status", 503, "<html>service unavailable</html>")>>,       c |-> "final"],
               [n |-> "empty",     s |-> <<Resp("body", 200, "")>>,                                          c |-> "final"],
